@@ -386,7 +386,7 @@ func init() {
 }
 
 func runC04(r *vfw.Run) {
-	o := scen.Opts{MinIdent: 1, MaxIdent: 20, CeremonySoon: true}
+	o := scen.Opts{MinIdent: 1, MaxIdent: 20, CeremonySoon: true, SmallShards: true}
 	if r.Tier == "thorough" {
 		o.MaxIdent = 60
 	}
@@ -614,7 +614,7 @@ func init() {
 }
 
 func runC06(r *vfw.Run) {
-	o := scen.Opts{MinIdent: 2, MaxIdent: 16, CeremonySoon: true}
+	o := scen.Opts{MinIdent: 2, MaxIdent: 16, CeremonySoon: true, SmallShards: true}
 	lr := newLedgerRun(r, o, 35, 60)
 	s := lr.s
 	defer s.Close()
@@ -822,7 +822,7 @@ func freshValidatorsText(n *simnode.Node, addrs []common.Address) string {
 }
 
 func runC10(r *vfw.Run) {
-	o := scen.Opts{MinIdent: 3, MaxIdent: 22, CeremonySoon: true}
+	o := scen.Opts{MinIdent: 3, MaxIdent: 22, CeremonySoon: true, SmallShards: true}
 	if r.Tier == "thorough" {
 		o.MaxIdent = 60
 	}
